@@ -15,7 +15,8 @@ CFG = {
             "alphabet + single-character deletion and insertion); each tampered file goes through bare DecryptKey, through a fresh KeyStore "
             "(Unlock + SignHash + recovered signer) and through KeyStore.Import; near-miss passphrases (substitution, deletion, insertion, case "
             "flip, composed/decomposed, empty, doubled) on every format; KeyStore flows ImportECDSA/NewAccount/Unlock/Lock/Export/Import/Update/"
-            "SignHashWithPassphrase/SignTxWithPassphrase/Delete judged step by step (every file the keystore writes must carry its address); EncryptKey "
+            "SignHashWithPassphrase/SignTxWithPassphrase/Delete judged step by step, incl. Unlock/TimedUnlock with a wrong passphrase on an ALREADY unlocked "
+            "account (indefinitely and timed) (every file the keystore writes must carry its address); EncryptKey "
             "output recomputed by the model; residual probe: files with the address member removed + IV alterations (outside the property, counted as residual:*). "
             "Non-trivial = the real code did not answer with an error (distinct inputs counted).",
     "tie": {"keystore.DecryptKey (decryptKeyV3, decryptKeyV1, getKDFKey, ensureInt)": "corr (Go vs Model.Keystore.decryptKey; KDF/AES/address values supplied by the harness, Keccak recomputed in Lean)",
